@@ -1,6 +1,7 @@
 package props
 
 import (
+	"fmt"
 	"strings"
 
 	"gcacheck/internal/an"
@@ -16,7 +17,7 @@ func init() {
 		Explanation: "Decided on package server: PERSIST-ON-ACCEPT every class of durable in-memory change is accompanied, on every path that performs it, by the write of the record that justifies it (authorization: append before the tables change; report: the integrator hands every recorded report to the report saver; " +
 			"GCA key: file written before the key is set; archived week: record appended to the statistics file in the critical section that archives it); REPLAY the report loader feeds every persisted record through the same parser and the same integrator as the UDP path, " +
 			"and the authorization loader applies the same case analysis as the live saver (C06's sibling rule); LOAD-ORDER the constructor calls the loaders in dependency order (server keys, temporary key, GCA key, authorizations, archived weeks - which set the window offset -, reports), each only after the previous one succeeded; " +
-			"MONOTONE-LOAD a loader aborts start-up on a persisted record only for reasons that no later accepted operation can create: a length that is not a whole number of records, or a failed verification under the write-once GCA key / the device's key; " +
+			"MONOTONE-LOAD a loader aborts start-up on a persisted record only for reasons that no later accepted operation can create: a failed verification under the write-once GCA key / the device's key; " +
 			"an abort on 'id not in the device table' is allowed only after the record's id was looked up in the ban set (every deletion from the device table adds the id to the ban set), so reports of a since-banned device are skipped instead of making the restart fail; " +
 			"the persisted encodings round-trip (C15). NOT decided: equality of the complete reloaded state with the pre-restart state as a behavioural claim over histories; live impact rates (not persisted by design). " +
 			"Noted: replay re-appends each replayed, still-live report to the log (the observable state is equal, the file grows by at most one copy per restart).",
@@ -96,6 +97,13 @@ func runC04(c *an.Ctx) {
 	if authLoader != nil {
 		saverStructure(c, authLoader, true)
 	}
+	// no writer of a record log may destroy earlier records
+	for file := range recordLogs {
+		for fn, proto := range roles[file].writers {
+			ok := proto == "append-1" || (proto == "create-empty" && construction[fn])
+			c.Check(ok, "PERSIST", fn, fn.Pos(), an.KeyOf(fn, "log-append-only:"+file), "every writer of the record log "+file+" appends (or creates it empty during construction): earlier accepted facts stay in the file", "writer protocol "+proto)
+		}
+	}
 	// archived week and key: owned by C03 / C07; require the writers to exist with the right protocol
 	okStats := false
 	for _, proto := range roles["allDeviceStats.dat"].writers {
@@ -114,6 +122,13 @@ func runC04(c *an.Ctx) {
 
 	loadOrder(c, ctor, roles)
 	replayRule(c, roles, construction)
+	for _, ld := range roles["allDeviceStats.dat"].loaders {
+		lfi := p.Info(ld)
+		for _, l := range loopsOf(ld) {
+			okExit, why := l.noSilentEarlyExit(lfi)
+			c.Check(okExit, "REPLAY", ld, ld.Pos(), an.KeyOf(ld, "no-early-exit:"+l.header.String()), "the record loop of the archive loader is left only when the whole file was consumed or by an error that aborts start-up", why)
+		}
+	}
 	monotoneLoad(c, roles)
 	c.Note("PERSIST", nil, 0, "replay-reappends", "load-time integration re-appends every replayed report that is still inside the live window to equipment-reports.dat (identical replays and already rotated weeks are not appended again): the file grows by at most one copy of the live window per restart, the observable state is equal")
 }
@@ -203,16 +218,65 @@ func replayRule(c *an.Ctx, roles map[string]*fileRole, construction map[*ssa.Fun
 		}
 	}
 	c.Check(ok, "REPLAY", loader, loader.Pos(), an.KeyOf(loader, "replay-through-live-path"), "every persisted report is re-parsed (signature and device lookup included) and re-integrated by the same integrator as a live report, so replay reproduces the live transition (duplicates, bans) exactly", "integrator call on the parser's result under err == nil")
-	// whole records only
-	okLen := false
-	for _, b := range loader.Blocks {
-		for _, f := range fi.FactsAtBlock(b) {
-			if !f.Neg && f.T.K == an.KBin && f.T.S == "==" && strings.Contains(f.T.Key(), "bin:%") && strings.Contains(f.T.Key(), "#80") {
-				okLen = true
+	// every whole record of the file is visited: the parser is given data[80*i : 80*i+80]
+	// for i = 0, 1, ... while i < len(data)/80
+	okAll := false
+	desc := "no parser call on an 80-byte record slice found"
+	for _, bb := range loader.Blocks {
+		for _, in := range bb.Instrs {
+			call, isCall := in.(*ssa.Call)
+			if !isCall || len(call.Call.Args) < 2 {
+				continue
+			}
+			at := fi.Term(call.Call.Args[len(call.Call.Args)-1])
+			if at.K != an.KSlice || len(at.A) < 3 || at.A[1].K != an.KBin || at.A[1].S != "*" {
+				continue
+			}
+			var iT *an.Term
+			for k := 0; k < 2; k++ {
+				if isConstTerm(at.A[1].A[k], "80") && at.A[1].A[1-k].K == an.KPhi {
+					iT = at.A[1].A[1-k]
+				}
+			}
+			if iT == nil || at.A[2].Key() != an.NormBin("+", at.A[1], an.ConstTerm("80")).Key() {
+				continue
+			}
+			data := at.A[0]
+			bound := an.NormBin("<", iT, an.NormBin("/", an.LenTerm(data), an.ConstTerm("80")))
+			hasBound := fi.FactsAt(call).Has(bound.Key())
+			desc = "record slice " + short(at.Key()) + "; loop bound fact present: " + fmt.Sprint(hasBound) + "; index from 0 step 1: " + fmt.Sprint(fromZeroStepOne(fi, iT))
+			if hasBound && fromZeroStepOne(fi, iT) {
+				okAll = true
+			}
+			// and the iteration is left only at its end or by aborting start-up
+			if l := innermostLoopOf(loader, call.Block()); l != nil {
+				okExit, why := l.noSilentEarlyExit(fi)
+				c.Check(okExit, "REPLAY", loader, call.Pos(), an.KeyOf(loader, "no-early-exit"), "the record loop of the report loader is left only when all records were visited or by an error that aborts start-up (no break / silent return that drops the remaining records)", why)
 			}
 		}
 	}
-	c.Check(okLen, "REPLAY", loader, loader.Pos(), an.KeyOf(loader, "whole-records"), "the report log is accepted iff its length is a whole number of 80-byte records (what append-1 writes can leave)", "len % 80 == 0 guard")
+	c.Check(okAll, "REPLAY", loader, loader.Pos(), an.KeyOf(loader, "all-records"), "the loader visits every whole 80-byte record of the report log (record i is data[80i:80i+80] for i = 0,1,... while i < len(data)/80): no persisted report is skipped by the iteration", desc)
+}
+
+// fromZeroStepOne: the loop index phi has exactly the incoming values 0 and phi+1.
+func fromZeroStepOne(fi *an.FuncInfo, iT *an.Term) bool {
+	ph, ok := iT.Val.(*ssa.Phi)
+	if !ok {
+		return false
+	}
+	z, s1 := false, false
+	for _, e := range ph.Edges {
+		et := fi.Term(e)
+		switch {
+		case isConstTerm(et, "0"):
+			z = true
+		case et.Key() == an.NormBin("+", iT, an.ConstTerm("1")).Key():
+			s1 = true
+		default:
+			return false
+		}
+	}
+	return z && s1
 }
 
 // monotoneLoad: a per-record abort may not depend on membership in a table that deletions shrink,
